@@ -7,7 +7,7 @@ mkdir -p "$DEST"
 git -C "$WT" diff -- src > "$DEST/patch.diff"
 cp "$WT/demo.py" "$DEST/demo.py"
 cp "$WT/meta.json" "$DEST/meta.json" 2>/dev/null || echo '{}' > "$DEST/meta.json"
-/venv/bin/python - "/meta.json" "7cf6603994d6777f256387b7084346f818a57370" <<'PY'
+/venv/bin/python - "$DEST/meta.json" "$(git -C "$WT" rev-parse HEAD)" <<'PY'
 import json, sys
 meta = json.load(open(sys.argv[1], encoding="utf-8"))
 meta["base"] = sys.argv[2]
